@@ -8,6 +8,7 @@ import (
 	"verif/scen/fscrash"
 	"verif/scen/kvstore"
 	"verif/scen/linksys"
+	"verif/scen/walkctl"
 )
 
 func main() {
@@ -15,5 +16,6 @@ func main() {
 	driver.Register(kvstore.S{})
 	driver.Register(linksys.S06{})
 	driver.Register(linksys.S05{})
+	driver.Register(walkctl.S{})
 	os.Exit(driver.Main(os.Args[1:]))
 }
